@@ -61,21 +61,24 @@ var extSummaries = map[string]extSum{
 	"io.ReadAll":                  {writes: []int{0}, ret: "fresh", why: "reads into a fresh slice"},
 
 	// encoding/binary
-	"(encoding/binary.littleEndian).Uint16":    pureNone,
-	"(encoding/binary.littleEndian).Uint32":    pureNone,
-	"(encoding/binary.littleEndian).Uint64":    pureNone,
-	"(encoding/binary.littleEndian).PutUint16": {writes: []int{1}, why: "stores into b"},
-	"(encoding/binary.littleEndian).PutUint32": {writes: []int{1}, why: "stores into b"},
-	"(encoding/binary.littleEndian).PutUint64": {writes: []int{1}, why: "stores into b"},
-	"(encoding/binary.bigEndian).Uint16":       pureNone,
-	"(encoding/binary.bigEndian).Uint32":       pureNone,
-	"(encoding/binary.bigEndian).Uint64":       pureNone,
-	"(encoding/binary.bigEndian).PutUint16":    {writes: []int{1}, why: "stores into b"},
-	"(encoding/binary.bigEndian).PutUint32":    {writes: []int{1}, why: "stores into b"},
-	"(encoding/binary.bigEndian).PutUint64":    {writes: []int{1}, why: "stores into b"},
-	"encoding/binary.Write":                    {writes: []int{0}, why: "encodes data (read only) and calls w.Write"},
-	"encoding/binary.Read":                     {writes: []int{0, 2}, why: "reads from r into fresh scratch, decodes into *data (fixed-size values, no aliasing)"},
-	"encoding/binary.Size":                     pureNone,
+	"(encoding/binary.littleEndian).Uint16":       pureNone,
+	"(encoding/binary.littleEndian).Uint32":       pureNone,
+	"(encoding/binary.littleEndian).Uint64":       pureNone,
+	"(encoding/binary.littleEndian).PutUint16":    {writes: []int{1}, why: "stores into b"},
+	"(encoding/binary.littleEndian).PutUint32":    {writes: []int{1}, why: "stores into b"},
+	"(encoding/binary.littleEndian).PutUint64":    {writes: []int{1}, why: "stores into b"},
+	"(encoding/binary.littleEndian).AppendUint16": {writes: []int{1}, ret: "arg:1", why: "appends to b"},
+	"(encoding/binary.littleEndian).AppendUint32": {writes: []int{1}, ret: "arg:1", why: "appends to b"},
+	"(encoding/binary.littleEndian).AppendUint64": {writes: []int{1}, ret: "arg:1", why: "appends to b"},
+	"(encoding/binary.bigEndian).Uint16":          pureNone,
+	"(encoding/binary.bigEndian).Uint32":          pureNone,
+	"(encoding/binary.bigEndian).Uint64":          pureNone,
+	"(encoding/binary.bigEndian).PutUint16":       {writes: []int{1}, why: "stores into b"},
+	"(encoding/binary.bigEndian).PutUint32":       {writes: []int{1}, why: "stores into b"},
+	"(encoding/binary.bigEndian).PutUint64":       {writes: []int{1}, why: "stores into b"},
+	"encoding/binary.Write":                       {writes: []int{0}, why: "encodes data (read only) and calls w.Write"},
+	"encoding/binary.Read":                        {writes: []int{0, 2}, why: "reads from r into fresh scratch, decodes into *data (fixed-size values, no aliasing)"},
+	"encoding/binary.Size":                        pureNone,
 
 	// reflect (read-only accessors used by the library)
 	"reflect.ValueOf":           {ret: "arg:0", why: "wraps the value"},
